@@ -639,7 +639,12 @@ func c16gen(r *hlib.Rng, np, nh, n int, sched bool, cfg c16cfg) []c16op {
 		}
 		x := r.Intn(100)
 		switch {
-		case x < 22: // AddPending, sometimes with neighbours
+		case x < 22: // AddPending, sometimes with neighbours; mostly for a peer that holds no slot
+			if r.Chance(60) {
+				for try := 0; try < 6 && sh.st[[2]int{h, p}] != 0; try++ {
+					h, p = r.Intn(nh), r.Intn(np)
+				}
+			}
 			var nb []int
 			if r.Chance(40) {
 				for i, m := 0, r.Intn(4); i < m; i++ {
